@@ -712,6 +712,12 @@ func (s *SquareBracket) Evaluation(
 		return nil
 	}
 
+	// no expression precedes `[` in this statement (the value left by the previous statement
+	// is not something to index): an array literal
+	if !p.IsParsingExpression() {
+		return e.makeArray(p, ctx, t)
+	}
+
 	if !t.IsBeforeSpace && !p.LastT.IsTargetIdentifiers([]string{"[", "("}) {
 		p.SkipToTargetToken("]")
 		p.SetLastEvaluatedT(base.MakeUntyped())
